@@ -18,13 +18,13 @@ from vlib import Infra
 
 # property -> (families enumerated, predicates that decide it)
 PROPS = {
-    "C06": (["accepted", "failed"], ["Exact"]),
+    "C06": (["accepted", "failed"], ["Exact", "StreamExact"]),
     "C07": (["accepted", "failed", "hostile", "mutants", "noise", "pids"],
             ["Framed", "FramedExact", "FramedUniversal", "FramedPeer", "FifoEq", "AuditNewline"]),
-    "C11": (["accepted", "failed", "hostile", "mutants", "noise", "pids"], ["Universal"]),
-    "C17": (["hostile"], ["Peer"]),
-    "C19": (["accepted", "failed", "hostile", "mutants", "noise", "pids"], ["Counter"]),
-    "C05": (["accepted", "failed", "hostile", "mutants", "pids"], ["Login", "Universal"]),
+    "C11": (["accepted", "failed", "hostile", "mutants", "noise", "pids"], ["Universal", "StreamUniversal"]),
+    "C17": (["hostile"], ["Peer", "StreamPeer"]),
+    "C19": (["accepted", "failed", "hostile", "mutants", "noise", "pids"], ["Counter", "StreamCounter"]),
+    "C05": (["accepted", "failed", "hostile", "mutants", "pids"], ["Login", "Universal", "StreamLoginStable"]),
 }
 
 
@@ -175,6 +175,30 @@ def run(ctx, prop):
             r = b["rec"]
             ctx.violation("AuditNewline", "audit record line parses differently with its trailing newline: %r (errors %s / %s)"
                           % (r["line"][:300], r["err1"], r["err2"]), {"kind": "audit-line", "line": r["line"]})
+    nscen = 0
+    if prop == "C19":
+        # the counter rule on every path of one line through the worker (SshdProc scripts: write failure, hand-off
+        # completed / abandoned on cancel / still blocked), for every message form
+        from checks import sshdproc
+        scs, sp = sshdproc.scripts(ctx)
+        sbad, sruns, slines, _ = sshdproc.scenarios(ctx, sp, ctx.path("vectors-vec.jsonl"), 2 if ctx.quick else 10)
+        nscen = len(sruns)
+        seen = set()
+        for b in sbad:
+            rr = sruns[b["scen"]]
+            key = json.dumps(rr[0]["sc"], sort_keys=True) + rr[0].get("form", "")
+            if b["what"] != "counter" or key in seen:
+                continue
+            seen.add(key)
+            ret = [x for x in rr if x["k"] == "return"]
+            ctx.violation("ScenarioCounter/%s" % key,
+                          "an emitted UserLogin event was not counted exactly once under its outcome: script %s, line %r: "
+                          "%s; counter moved by %s (label %r)" % (
+                              json.dumps(rr[0]["sc"], sort_keys=True), rr[0]["line"][:160],
+                              " ".join(x["k"] + ("(%s)" % x["ok"] if "ok" in x else "") for x in rr[1:]),
+                              ret[0].get("ctr") if ret else "?", ret[0].get("ctrlabel") if ret else "?"),
+                          {"kind": "sshdproc-scenario", "scenario": rr[0]["sc"], "pid": rr[0]["pid"], "line": rr[0]["line"],
+                           "events": rr[1:]})
     nself = selftest(ctx, tp, preds)
     mine = [b for b in bad if b["what"] in preds]
     groups = collections.defaultdict(list)
@@ -183,14 +207,17 @@ def run(ctx, prop):
     mine = [b for b in mine if "form" in b["rec"]]
     for (what, form, fam), bs in sorted(groups.items()):
         r = bs[0]["rec"]
+        ob = r["stream"] if what.startswith("Stream") and r.get("stream") else r["direct"]
+        where = (" [delivered to the ONE long-lived processor that sees every line of this run in turn; the same line "
+                 "on a fresh processor is judged separately]" if what.startswith("Stream") else "")
         ctx.violation("%s/%s/%s" % (what, form, fam),
-                      "%s fails for %d concretised vectors of form %s (%s); e.g. pid=%r line=%r -> events=%s logins=%s ctr=%s framed=%s"
-                      % (what, len(bs), form, fam, r["pid"], r["line"][:200], json.dumps(r["direct"]["events"])[:300],
-                         r["direct"]["logins"], r["direct"]["ctr"],
+                      "%s fails for %d concretised vectors of form %s (%s)%s; e.g. pid=%r line=%r -> events=%s logins=%s ctr=%s framed=%s"
+                      % (what, len(bs), form, fam, where, r["pid"], r["line"][:200], json.dumps(ob["events"])[:300],
+                         ob["logins"], ob["ctr"],
                          json.dumps((r.get("framed") or {}).get("events"))[:200]),
                       {"kind": "sshd-vector", "predicate": what, "pid": r["pid"], "line": r["line"], "pad": r["pad"],
                        "expected_event": r["event"], "expected_login": r["login"], "observed": r["direct"],
-                       "observed_framed": r.get("framed")})
+                       "observed_framed": r.get("framed"), "observed_stream": r.get("stream")})
     others = sorted({b["what"] for b in bad if b["what"] not in preds})
     if others:
         ctx.notes.append("predicates of other properties failed on these records: " + ", ".join(others))
@@ -224,6 +251,9 @@ def run(ctx, prop):
         "emitting_by_form": stats["emitting"],
         "exhaustive": False,
     }
+    cov["rule"] += "; every line is also delivered to ONE long-lived processor (one registry and event sink for the whole run)"
+    if nscen:
+        cov["worker_scenario_runs_for_counter_rule"] = nscen
     return cov
 
 
